@@ -169,7 +169,7 @@ def plan(tier, seed):
     depth = 2 if tier == "quick" else 3
     nsh = 8 if tier == "quick" else 16
     specs = [{"kind": "positions", "depth": depth, "part": i, "parts": nsh} for i in range(nsh)]
-    specs += [{"kind": "random", "n": 40 if tier == "quick" else 600} for _ in range(4 if tier == "quick" else 12)]
+    specs += [{"kind": "random", "n": 120 if tier == "quick" else 1200} for _ in range(6 if tier == "quick" else 12)]
     specs.append({"kind": "hostile"})
     return specs
 
@@ -219,7 +219,9 @@ def random_projects(spec, acc):
     for i in range(spec["n"]):
         tspec = trees.random_project(rnd, imports_per_file=(0, 4), externals=0.1, dangling=0.05)
         dirs = trees.all_dirs(tspec)
-        mp_rel = rnd.choice(dirs) if rnd.random() < 0.3 else ""
+        mp_rel = rnd.choice(dirs) if rnd.random() < 0.4 else ""
+        if mp_rel and rnd.random() < 0.7:
+            acc.count("statements_written_relative_to_module_path_parent", trees.relativise(tspec, mp_rel, rnd))
         case = {"kind": "random", "spec": tspec, "mp": mp_rel}
         se = scan_and_attribute(tspec, acc, case, mp_rel)
         if se.model and se.model.statements:
@@ -288,6 +290,8 @@ def floors(acc, tier):
     cov = acc.hists.get("position_covered", {})
     if len(cov) < acc.flags.get("positions_built", 0):
         why.append("not every built position was covered")
+    if acc.counters["statements_written_relative_to_module_path_parent"] < 10:
+        why.append("too few imports written relative to module_path's parent")
     if acc.counters["scans_judged"] < 20:
         why.append("too few scans judged by the monitor")
     for f in FORMS:
